@@ -382,6 +382,8 @@ theorem invF_move (s : St) (m : Move) (hu : InvU s) (h : InvF s) : InvF (move s 
     · exact h
   case script i k acts => exact invF_frame s _ h rfl rfl
   case enter => unfold enterRun; split <;> first | exact invF_frame s _ h rfl rfl | exact h
+  case intrBegin => split <;> first | exact invF_frame s _ h rfl rfl | exact h
+  case intrEnd => split <;> first | exact invF_frame s _ h rfl rfl | exact h
   case step inp o => exact invF_step s inp o h
 
 theorem invF_reach (ms : List Move) : InvF (reach ms) := by
